@@ -1,18 +1,13 @@
-(* ---- Access.v (prototype) ---- *)
-From Coq Require Import List NArith Bool Lia.
+(* Access.v : model of src/access.rs (ComponentAccess as a DNF with a sorted-merge `and`).
+   The per-cell tables come from gen/Tables.v, which is regenerated from the running code. *)
+From Coq Require Import List NArith Bool.
 Import ListNotations.
-Inductive cacc := With | Read | ReadWrite | Not | Conflict.
+Require Export EV.AccessTypes EV.gen.Tables.
+
 Definition case := list (N * cacc).
 Definition ca := list case.
-Definition merge_acc (l r : cacc) : option cacc :=
-  match l, r with
-  | With, Read | Read, Read | Read, With => Some Read
-  | With, ReadWrite | ReadWrite, With => Some ReadWrite
-  | With, With => Some With
-  | Not, Not => Some Not
-  | Not, _ | _, Not => None
-  | _, _ => Some Conflict
-  end.
+
+(* access.rs:151-213, the merge loop of `and` for one (left, right) pair; None = `continue 'next_case` *)
 Fixpoint merge_case (l : case) : case -> option case :=
   fix inner (r : case) : option case :=
     match l, r with
@@ -27,81 +22,28 @@ Fixpoint merge_case (l : case) : case -> option case :=
        | Gt => option_map (cons (ri,ra)) (inner r')
        end
     end.
-Definition lit_holds (a : N -> bool) (p : N * cacc) : bool :=
-  match snd p with Not => negb (a (fst p)) | _ => a (fst p) end.
-Definition case_matches a (c : case) := forallb (lit_holds a) c.
-Definition ca_matches a (e : ca) := existsb (case_matches a) e.
+
+Definition ca_true : ca := [[]].
+Definition ca_false : ca := [].
+Definition ca_var (i : N) (a : access) : ca := [[(i, var_acc a)]].
+(* for right in rhs { for left in self { .. } } *)
 Definition ca_and (x y : ca) : ca :=
   flat_map (fun right => flat_map (fun left => match merge_case left right with Some c => [c] | None => [] end) x) y.
 Definition ca_or (x y : ca) : ca := x ++ y.
-Definition ca_true : ca := [[]].
-Definition neg_acc (x : cacc) := match x with Not => With | _ => Not end.
 Definition ca_not (x : ca) : ca :=
-  fold_left (fun acc case => ca_and acc (map (fun p => [(fst p, neg_acc (snd p))]) case)) x ca_true.
+  fold_left (fun acc c => ca_and acc (map (fun p => [(fst p, neg_acc (snd p))]) c)) x ca_true.
+Definition ca_clear (x : ca) : ca := map (map (fun p => (fst p, clear_acc (snd p)))) x.
 
-Lemma merge_acc_holds a i x y :
-  match merge_acc x y with
-  | Some m => lit_holds a (i,m) = lit_holds a (i,x) && lit_holds a (i,y)
-  | None => lit_holds a (i,x) && lit_holds a (i,y) = false
+Definition lit_holds (a : N -> bool) (p : N * cacc) : bool :=
+  if pos_acc (snd p) then a (fst p) else negb (a (fst p)).
+Definition case_matches a (c : case) := forallb (lit_holds a) c.
+Definition ca_matches (a : N -> bool) (e : ca) := existsb (case_matches a) e.
+
+(* collect_conflicts, as a list with duplicates removed in first-occurrence order (IndexSet) *)
+Fixpoint dedupN (l : list N) (seen : list N) : list N :=
+  match l with
+  | [] => []
+  | h :: t => if existsb (N.eqb h) seen then dedupN t seen else h :: dedupN t (h :: seen)
   end.
-Proof. destruct x, y; cbn; destruct (a i); reflexivity. Qed.
-
-Lemma merge_case_eq l r : merge_case l r =
-    match l, r with
-    | [], _ => Some r
-    | _, [] => Some l
-    | (li,la)::l', (ri,ra)::r' =>
-       match N.compare li ri with
-       | Lt => option_map (cons (li,la)) (merge_case l' r)
-       | Eq => match merge_acc la ra with
-               | None => None
-               | Some m => option_map (cons (li,m)) (merge_case l' r') end
-       | Gt => option_map (cons (ri,ra)) (merge_case l r')
-       end
-    end.
-Proof. destruct l as [|[li la] l]; destruct r as [|[ri ra] r]; reflexivity. Qed.
-
-Lemma merge_case_matches a : forall l r,
-  match merge_case l r with
-  | Some c => case_matches a c = case_matches a l && case_matches a r
-  | None => case_matches a l && case_matches a r = false
-  end.
-Proof.
-  unfold case_matches.
-  induction l as [|[li la] l IHl]; intros r.
-  - destruct r; reflexivity.
-  - induction r as [|[ri ra] r IHr].
-    + cbn [merge_case forallb]. now rewrite andb_true_r.
-    + rewrite merge_case_eq. destruct (N.compare_spec li ri) as [E|L|G].
-      * subst ri. pose proof (merge_acc_holds a li la ra) as H.
-        destruct (merge_acc la ra) as [m|].
-        -- specialize (IHl r). destruct (merge_case l r) as [c|]; cbn [option_map forallb] in *.
-           ++ rewrite H, IHl.
-              destruct (lit_holds a (li,la)), (lit_holds a (li,ra)), (forallb (lit_holds a) l), (forallb (lit_holds a) r); reflexivity.
-           ++ destruct (lit_holds a (li,la)), (lit_holds a (li,ra)), (forallb (lit_holds a) l), (forallb (lit_holds a) r); try reflexivity; discriminate.
-        -- cbn [forallb] in *.
-           destruct (lit_holds a (li,la)), (lit_holds a (li,ra)), (forallb (lit_holds a) l), (forallb (lit_holds a) r); try reflexivity; discriminate.
-      * specialize (IHl ((ri,ra)::r)). destruct (merge_case l ((ri,ra)::r)) as [c|]; cbn [option_map forallb] in *.
-        -- rewrite IHl. now rewrite andb_assoc.
-        -- rewrite <- andb_assoc, IHl. now rewrite andb_false_r.
-      * destruct (merge_case ((li,la)::l) r) as [c|]; cbn [option_map forallb] in *.
-        -- rewrite IHr.
-           destruct (lit_holds a (li,la)), (lit_holds a (ri,ra)), (forallb (lit_holds a) l), (forallb (lit_holds a) r); reflexivity.
-        -- destruct (lit_holds a (li,la)), (lit_holds a (ri,ra)), (forallb (lit_holds a) l), (forallb (lit_holds a) r); try reflexivity; discriminate.
-Qed.
-
-Lemma ca_and_matches a x y : ca_matches a (ca_and x y) = ca_matches a x && ca_matches a y.
-Proof.
-  unfold ca_and, ca_matches. induction y as [|r y IH]; cbn [flat_map existsb].
-  - now rewrite andb_false_r.
-  - rewrite existsb_app, IH. 
-    assert (H: existsb (case_matches a) (flat_map (fun left => match merge_case left r with Some c => [c] | None => [] end) x)
-               = existsb (case_matches a) x && case_matches a r).
-    { clear. induction x as [|l x IH]; cbn [flat_map existsb]; [reflexivity|].
-      rewrite existsb_app, IH. pose proof (merge_case_matches a l r) as H.
-      destruct (merge_case l r); cbn [existsb]; rewrite ?orb_false_r.
-      - rewrite H. destruct (case_matches a l), (case_matches a r), (existsb (case_matches a) x); reflexivity.
-      - destruct (case_matches a l), (case_matches a r), (existsb (case_matches a) x); try reflexivity; discriminate. }
-    rewrite H. destruct (existsb (case_matches a) x), (case_matches a r), (existsb (case_matches a) y); reflexivity.
-Qed.
-Print Assumptions ca_and_matches.   (* Closed under the global context *)
+Definition ca_conflicts (e : ca) : list N :=
+  dedupN (flat_map (fun c => flat_map (fun p => if cacc_eqb (snd p) Conflict then [fst p] else []) c) e) [].
